@@ -175,7 +175,16 @@ def gen_op(rng, o, n, valid):
         res = rng.choice([(1, -1), (2, -2), (3, -4), (0.5, -0.25), (10, -10)])
         a["transform"] = [res[0], 0, rng.choice([0, 5]), 0, res[1], rng.choice([0, 40])]
         a["latlon"] = rng.random() < 0.3 and abs(res[1]) <= 4
-        if rng.random() < 0.35:
+        if rng.random() < 0.2:
+            # a georeference that differs from the current one by very little (sub-millimetre cells, a shift of a few
+            # micro-units): still another transform
+            t = o.transform
+            k = rng.choice([0.5, 2.0, 0.25])
+            small = rng.choice([1e-6, 4e-6, 8e-6])
+            a["transform"] = [small, 0, t.c, 0, -small * rng.choice([1, k]), t.f] if rng.random() < 0.5 else \
+                [t.a, t.b, t.c + rng.choice([2e-6, -3e-6]), t.d, t.e, t.f + rng.choice([0, 4e-6])]
+            a["latlon"] = o.latlon
+        elif rng.random() < 0.35:
             # same affine as the object was built with, only the latlon flag changes
             t = o.transform
             a["transform"] = [t.a, t.b, t.c, t.d, t.e, t.f]
